@@ -465,3 +465,31 @@ def changed_sources(prop, modelled):
     snap = json.load(open(path)).get(prop, {}) if os.path.exists(path) else {}
     cur = current_fingerprints(modelled)
     return sorted(k for k in cur if k in snap and snap[k] != cur[k]), sorted(k for k in cur if k not in snap)
+
+
+def anchor_functions(prop):
+    """every function / method defined in the property's anchor files (properties.jsonl): the default list of
+    fingerprinted functions for verticals that do not name their modelled functions themselves"""
+    import ast
+    files = []
+    for line in open(os.path.join(VERIF, "properties.jsonl")):
+        p = json.loads(line)
+        if p["id"] == prop:
+            files = [f for f in p["anchors"]["files"] if f.endswith(".py")]
+    out = []
+    for rel in files:
+        path = os.path.join(REPO, rel)
+        if not os.path.exists(path):
+            continue
+        try:
+            tree = ast.parse(open(path).read())
+        except SyntaxError:
+            continue
+        for node in tree.body:
+            if isinstance(node, ast.FunctionDef):
+                out.append("%s:%s" % (rel, node.name))
+            elif isinstance(node, ast.ClassDef):
+                for sub in node.body:
+                    if isinstance(sub, ast.FunctionDef):
+                        out.append("%s:%s.%s" % (rel, node.name, sub.name))
+    return out
